@@ -1275,3 +1275,53 @@ def oracle_type_position(c, line, toks):
     if c.expected not in proj_shape(line):
         return "the type %s does not have its derivation %s in this position" % (c.note, c.expected)
     return None
+
+
+# ---------------------------------------------------------------- C14: the printed tree spells the program it was read from
+def program_tokens(src):
+    """the token sequence of a program up to what the grammar leaves optional: comments, all semicolons, a comma
+    before a closing bracket, and the grouping of import declarations"""
+    toks = [(k, t) for p, k, t in spec_lex(src) if k != "C"]
+    out = []
+    i, n = 0, len(toks)
+    while i < n:
+        k, t = toks[i]
+        nxt = toks[i + 1][1] if i + 1 < n else None
+        if k == "O" and t == ";":
+            i += 1
+        elif k == "O" and t == "," and nxt in (")", "]", "}"):
+            i += 1
+        elif k == "K" and t == "import":
+            i += 1
+            if i < n and toks[i][1] == "(":
+                i += 1
+                while i < n and toks[i][1] != ")":
+                    if toks[i][1] != ";":
+                        out.append(toks[i][1])
+                    i += 1
+                i += 1
+        else:
+            out.append(t)
+            i += 1
+    return out
+
+
+# ---------------------------------------------------------------- type-parameter lists (C02): valid by the spec's rules
+TPARAM_FIRSTS = ["any", "C", "*C", "(C)", "~C", "*C|D", "*C|~D", "(C)|D", "C|D", "~C|D", "interface{C}", "*C|D|E", "pkg.C", "pkg.C|D",
+                 "C[int]", "*C[int]", "*C[int]|D", "map[K]V", "func()", "chan C", "*pkg.C", "*pkg.C|D", "(C)|(D)", "~[]C", "~*C|D"]
+TPARAM_TAILS = ["]", ",]", ", Q any]", ", Q *D]", ", Q, R any]", ", Q *C|D]", ", Q interface{ m() }]"]
+TPARAM_CTX = ["type T[P %s struct{}", "type (\n T[P %s struct{}\n)", "func _() { type T[P %s struct{} }", "func f[P %s() {}", "type T[P %s = int"]
+
+
+def tparam_cases():
+    """every first constraint x continuation x declaration context.  `type T[P *C] X` and `type T[P (C)] X` read as
+    array types (the spec's ambiguity rule: no comma, no ~), which is valid too except as an alias declaration"""
+    out = []
+    for f in TPARAM_FIRSTS:
+        for t in TPARAM_TAILS:
+            for c in TPARAM_CTX:
+                ambiguous = f[0] in "*(" and t == "]" and "~" not in f
+                if ambiguous and c.endswith("= int"):
+                    continue
+                out.append(Case("package p\n" + (c % (f + t)) + "\n", "F-valid"))
+    return out
